@@ -293,7 +293,8 @@ func (w *World) EntriesOf(path string) []Entry {
 func (w *World) PubsOf(typ string) []Pub {
 	var out []Pub
 	for _, p := range w.Pubs {
-		if p.Type == typ {
+		// dead letters reach the stream as ves.DeathLetterEvent; the tap names the ones published through TellSelf "DeathLetter"
+		if p.Type == typ || (typ == "DeathLetterEvent" && p.Type == "DeathLetter") {
 			out = append(out, p)
 		}
 	}
